@@ -775,6 +775,32 @@ func init() {
 	for _, n := range []string{"fmt.Println", "fmt.Printf", "fmt.Print", "fmt.Fprintf", "fmt.Fprintln", "fmt.Fprint", "log.Printf", "log.Println", "log.Print"} {
 		reg(n, noop)
 	}
+	// github.com/pkg/errors wrappers (they capture a stack through runtime.Callers, which has no body to run)
+	pkgWrap := func(withFormat bool) intrinsicFn {
+		return func(p *Path, fn *ssa.Function, a []Value) Value {
+			inner, _ := a[0].(Iface)
+			if inner.T == nil {
+				return Iface{}
+			}
+			var msg Str
+			if withFormat {
+				msg, _ = p.sprintf(strArg(p, a[1]), variadic(a[2]))
+			} else if len(a) > 1 {
+				msg = a[1].(Str)
+			}
+			im, _ := p.formatValue('v', inner, "")
+			full := im
+			if msg.Len() > 0 {
+				full = strConcat(strConcat(msg, StrC(": ")), im)
+			}
+			return p.newError(full, []Value{inner})
+		}
+	}
+	reg("github.com/pkg/errors.Wrap", pkgWrap(false))
+	reg("github.com/pkg/errors.WithMessage", pkgWrap(false))
+	reg("github.com/pkg/errors.WithStack", pkgWrap(false))
+	reg("github.com/pkg/errors.Wrapf", pkgWrap(true))
+	reg("github.com/pkg/errors.WithMessagef", pkgWrap(true))
 	reg("github.com/pkg/errors.New", func(p *Path, fn *ssa.Function, a []Value) Value { return p.newError(a[0].(Str), nil) })
 	reg("github.com/pkg/errors.Errorf", func(p *Path, fn *ssa.Function, a []Value) Value {
 		msg, wrapped := p.sprintf(strArg(p, a[0]), variadic(a[1]))
@@ -1182,6 +1208,11 @@ func (p *Path) nativeMethod(bn *boundNative, args []Value) Value {
 }
 
 func (p *Path) logCall(method string, args []Value) {
+	if os.Getenv("SYMGO_TRACE_LOG") != "" {
+		for _, a := range args {
+			fmt.Fprintf(os.Stderr, "LOGARG %s secret=%v %s\n", method, p.hasSecret(a), describe(a))
+		}
+	}
 	if p.eng.traceOn {
 		line := "LOG " + method
 		for _, a := range args {
